@@ -14,6 +14,7 @@
    up to and at the end of the uint32 range (before the repair they needed the extra hypothesis
    "the counter has not reached 2^32-1" and C07_wrap_refuted exhibited 4294967295, 0). *)
 From Verif Require Import Common RunCounter RunCounter_proofs.
+From Verif Require Import Gen_RunNumberSites RunNumberSites_proofs.
 Open Scope N_scope.
 
 (* Numbers handed out later are larger, and all are larger than the value the counter had at
@@ -180,6 +181,89 @@ Theorem C07_start_uses_counter_number : forall e neg_ok rn rest_ok e',
   e_state e = E_CONFIGURED /\ exists n, rn = Some n /\ e' = mkEnv E_RUNNING n.
 Proof. exact start_number_is_counter_number. Qed.
 Print Assumptions C07_start_uses_counter_number.
+
+(* Histories.  [hrun_res (hinit s0 states) 0 ops] executes ANY sequence [ops] of requests (START
+   attempts with any outcome of their hooks and transition body, STOP, GO_ERROR, RECOVER,
+   CONFIGURE, RESET, ..., done or cancelled) on ANY number of environments in any initial states,
+   all sharing the counter; during every START attempt anything may happen at the counter (its
+   own requests served / failed / lost, other cores' callers, foreign writers: [heff] is the
+   resulting schedule).  [hnums] are the run numbers under which the successive attempts went on
+   (the number shown to the hooks of weight >= 0 and kept by the environment), in the order of
+   the attempts.  Every attempt draws a fresh number: they are strictly increasing across
+   cancelled and repeated starts, runs ended by STOP or by GO_ERROR, and across environments. *)
+Theorem C07_attempts_increasing : forall s0 states ops,
+  wf_store s0 -> env_ok (init s0) (heff (hinit s0 states) 0 ops) ->
+  StronglySorted N.lt (cur s0 :: hnums (hrun_res (hinit s0 states) 0 ops)).
+Proof. exact hist_sorted. Qed.
+Print Assumptions C07_attempts_increasing.
+
+Theorem C07_attempts_unique : forall s0 states ops,
+  wf_store s0 -> env_ok (init s0) (heff (hinit s0 states) 0 ops) ->
+  NoDup (hnums (hrun_res (hinit s0 states) 0 ops)).
+Proof. exact hist_nodup. Qed.
+Print Assumptions C07_attempts_unique.
+
+(* the numbers of the attempts are numbers the counter handed out during the history, in order *)
+Theorem C07_attempts_are_counter_numbers : forall s0 states ops,
+  sublist (hnums (hrun_res (hinit s0 states) 0 ops))
+          (handed (hs_ctr (hrun_st (hinit s0 states) 0 ops))).
+Proof. exact hist_sublist. Qed.
+Print Assumptions C07_attempts_are_counter_numbers.
+
+(* one attempt (no hypothesis on anybody): it goes on only under a number that its own call,
+   idle when the attempt began, obtained through an applied compare-and-set during the attempt *)
+Theorem C07_attempt_draws_fresh : forall h k o n,
+  link (hs_ctr h) -> get (s_callers (hs_ctr h)) (aid k) = Idle ->
+  hr_seen (snd (hstep h k o)) = Some n ->
+  ~ In (EvRet (aid k) n) (s_trace (hs_ctr h)) /\
+  In (EvRet (aid k) n) (s_trace (hs_ctr (fst (hstep h k o)))).
+Proof. exact attempt_draws_fresh. Qed.
+Print Assumptions C07_attempt_draws_fresh.
+
+(* the history model is written from these sites: core/environment writes currentRunNumber in
+   exactly three places (START attempt: assigned; after STOP_ACTIVITY and failing task start:
+   cleared) and calls NewRunNumber in exactly one, under the only condition "the event is
+   START_ACTIVITY" (table regenerated from the source on every run) *)
+Theorem C07_run_number_sites_as_modelled :
+  gen_rn_writes = expected_rn_writes /\ gen_rn_draws = expected_rn_draws.
+Proof. exact rn_sites_as_modelled. Qed.
+Print Assumptions C07_run_number_sites_as_modelled.
+
+(* what the environment keeps of it *)
+Theorem C07_attempt_env : forall h k ei neg_ok rest sched,
+  let x := snd (hstep h k (HStart ei neg_ok rest sched)) in
+  let e := eget (hs_envs h) ei in
+  match hr_seen x with
+  | Some n => hr_rn x = (if rest <=? 1 then n else 0) /\ hr_err x = negb (rest =? 0) /\
+              eget (hs_envs (fst (hstep h k (HStart ei neg_ok rest sched)))) ei =
+              mkEnv (hr_state x) (hr_rn x)
+  | None => hr_err x = true /\ hr_state x = e_state e /\ hr_rn x = e_rn e /\
+            hs_envs (fst (hstep h k (HStart ei neg_ok rest sched))) = hs_envs h
+  end.
+Proof. exact attempt_env. Qed.
+Print Assumptions C07_attempt_env.
+
+(* non-vacuity of the history theorems: two environments; a start cancelled by a hook after its
+   draw, then repeated; a run ended by GO_ERROR, recovered, configured, started again; a start of
+   the other environment whose CAS is refused because a foreign writer moved the counter;
+   start / stop / start; a start cancelled by failing tasks *)
+Example C07_nonvacuous_history :
+  let s0 := mkStore None 3 in
+  let ops := [HStart 0 true 1 [AOwn 0; AOwn 0];
+              HStart 0 true 0 [AOwn 0; AOwn 0];
+              HOther 0 6 true; HOther 0 7 true; HOther 0 1 true;
+              HStart 1 true 0 [AOwn 0; AOther (SPut [53]); AOwn 0];
+              HStart 0 true 0 [AOwn 0; AOwn 0];
+              HOther 0 4 true;
+              HStart 0 true 2 [AOwn 0; AOwn 0]] in
+  wf_store s0 /\ env_ok (init s0) (heff (hinit s0 [2; 2]) 0 ops) /\
+  hnums (hrun_res (hinit s0 [2; 2]) 0 ops) = [1; 2; 6; 7] /\
+  map hr_rn (hrun_res (hinit s0 [2; 2]) 0 ops) = [1; 2; 2; 2; 2; 0; 6; 0; 0] /\
+  map hr_state (hrun_res (hinit s0 [2; 2]) 0 ops) = [2; 3; 5; 1; 2; 2; 3; 2; 2].
+Proof.
+  vm_compute. repeat split; try reflexivity; try (intros; discriminate).
+  exists 5. split; [reflexivity|discriminate].
+Qed.
 
 (* non-vacuity: a concrete racy schedule that meets every hypothesis — three callers, the
    key is created with cas=0 by the winner of a race, a foreign writer re-writes an equal
